@@ -1,28 +1,54 @@
-"""C15 - section outputs keep the screen equal to the stacked section contents."""
-import itertools, os
-from hutil import S, unS
+"""C15 - section outputs keep the screen equal to the stacked section contents (texts are markup, sections are indented)."""
+import itertools, os, re
+from hutil import S, unS, err
 import termemu
 
 MODEL = "C15"
 PROP_FILES = ["Props/C15.v"]
 W = 10
-RULE = ("operation sequences on 1-3 sections of one output at terminal width 10: write / write_line of texts with line lengths "
-        "{1, 9, 10, 11, 23} and a two-line text, overwrite, clear(), clear(1), clear(2); all sequences up to length 3 (quick) / 4 "
-        "(thorough) after creating the sections, random ones up to length 40 with sections created on the way, in ANSI and in plain "
-        "mode; the emitted bytes are replayed on an independent terminal emulator; non-trivial = touches >= 2 sections or a wrapped "
-        "line; distinct by op sequence")
-THEOREMS = ["screen_is_stack", "rows_accounting", "plain_degrades"]
-TRUSTED = ["Base/Term.v as the terminal (infinite height, deferred auto-wrap, LF implies CR); tabs, wide characters and style tags in "
-           "section texts are outside the model"]
-ASSUMPTIONS = ["texts are plain (no tags, no tabs); indentation 0"]
+RULE = ("operation sequences on 1-3 sections of one output at terminal width 10: write / write_line / overwrite of plain texts with "
+        "line lengths {1, 9, 10, 11, 23} and a two-line text, and of TAGGED texts (<info>, <b>, <comment>, <error>, <u>, inline "
+        "<fg=red>..</>, a tag around two words, an unknown tag, an escaped '\\<', an escaped whole tag, a tag spanning a line break, "
+        "texts whose raw length exceeds the width while the visible length does not / equals it / exceeds it too, an empty line "
+        "between tagged lines, the empty text), section.indent(0|2|3|7|12) so that a raw text that fits no longer fits when indented "
+        "and an empty line is written under an indentation wider than the terminal, clear(), clear(1), clear(2); all sequences of the plain alphabet up to length 3 (quick) / 4 (thorough) after creating the sections, all "
+        "sequences of a tagged-and-indented alphabet up to length 3/4 (one section) and 3 (two sections), random ones up to length "
+        "40 over everything with sections created on the way, in ANSI and in plain mode; the emitted bytes (SGR sequences "
+        "included) are replayed on an independent terminal emulator; the class of the theorems (good markup) is decided on both "
+        "sides and compared; non-trivial = touches >= 2 sections or a wrapped line or a tag or an indentation; distinct by op sequence")
+THEOREMS = ["screen_is_stack", "screen_is_stack_plain", "rows_accounting", "good_line_shown", "sgr_occupies_no_cell", "plain_degrades"]
+TRUSTED = ["Base/Term.v as the terminal (infinite height, deferred auto-wrap, LF implies CR, an SGR sequence occupies no cell); "
+           "tabs and wide characters in section texts are outside the model (a character is one cell); pastel is modelled by "
+           "Model/Markup.v (tied by C11 and by this run)"]
+ASSUMPTIONS = ["screen_is_stack: every line of a written text is good markup (no ESC / tab, no backslash at its end or right before a "
+               "tag, the formatter accepts it and leaves the style stack empty: no tag spans a line break); any indentation"]
 
-TEXTS = ["a", "b" * 9, "c" * 10, "d" * 11, "e" * 23, "f\n" + "g" * 12]
+# 0..5: the plain texts (the corpus refers to them by index)
+TEXTS = ["a", "b" * 9, "c" * 10, "d" * 11, "e" * 23, "f\n" + "g" * 12,
+         "<info>12345</info>",                 # 6  raw 18 > width, visible 5
+         "<info>1234567890</info>12",          # 7  visible 12: wraps
+         "<b>two words</b> x",                 # 8  a tag around two words, visible 11
+         "p<fg=red>q</>r",                     # 9  inline style
+         "a\\<b",                              # 10 escaped '<'
+         "<comment>123456789</comment>0",      # 11 visible exactly the width
+         "<info>ab</info>\n<b>cd</b>ef",       # 12 two tagged lines
+         "<b>x</b>\n\ny",                      # 13 an empty line in between
+         "\\<info>x",                          # 14 an escaped whole tag (outside the theorems' class)
+         "<foo>zzzzzz</foo>",                  # 15 unknown tag: shown as it is, 17 cells
+         "<u>" + "m" * 10 + "</u><error>!</error>",   # 16 visible 11
+         "",                                   # 17 the empty text
+         "<info>a\nb</info>",                  # 18 a tag spanning a line break (outside the class)
+         "<fg=cyan;options=bold>1234567</> <b>9</b>"]  # 19 visible 9 (+ indentation 2: wraps)
+PLAIN_T = range(6)
+TAGGED_SMALL = [6, 7, 8, 10, 12, 13, 17]
+INDENTS = [0, 2, 3, 7, 12]
 
 
 def ops_for(nsec):
+    """the plain alphabet (as before the texts became markup)"""
     ops = []
     for i in range(nsec):
-        for t in range(len(TEXTS)):
+        for t in PLAIN_T:
             ops.append([1, i, t, 1])
         ops.append([1, i, 0, 0])
         ops.append([2, i, 1])
@@ -33,14 +59,51 @@ def ops_for(nsec):
     return ops
 
 
+def ops_tagged(nsec):
+    """a small alphabet of tagged texts and indentations"""
+    ops = []
+    for i in range(nsec):
+        for t in TAGGED_SMALL:
+            ops.append([1, i, t, 1])
+        ops.append([2, i, 11])
+        ops.append([3, i, None])
+        ops.append([3, i, 1])
+        ops.append([4, i, 3])
+        ops.append([4, i, 12])
+        ops.append([4, i, 0])
+    return ops
+
+
+def ops_all(nsec):
+    ops = []
+    for i in range(nsec):
+        for t in range(len(TEXTS)):
+            ops.append([1, i, t, 1])
+            ops.append([2, i, t])
+        ops.append([1, i, 0, 0])
+        ops.append([1, i, 9, 0])
+        for n in (None, None, 1, 1, 2, 3):
+            ops.append([3, i, n])
+        for n in INDENTS:
+            ops.append([4, i, n])
+    return ops
+
+
 def gen(rng, tier, info):
     depth = {"quick": 3, "thorough": 4, "search": 2}[tier]
-    nrand = {"quick": 4000, "thorough": 40000, "search": 1500}[tier]
+    nrand = {"quick": 5000, "thorough": 50000, "search": 1500}[tier]
     cases = []
     for nsec in (1, 2, 3):
         al = ops_for(nsec)
-        d = depth if nsec < 3 else depth - (1 if tier != "quick" else 1)
+        d = depth if nsec < 3 else depth - 1
         for k in range(0, d + 1):
+            for seq in itertools.product(al, repeat=k):
+                for ansi in ((1, 0) if k <= 2 else (1,)):
+                    cases.append({"ansi": ansi, "ops": [[0]] * nsec + [list(o) for o in seq]})
+    n_plain = len(cases)
+    for nsec, d in ((1, depth + 1 if tier != "search" else depth), (2, min(depth, 3))):
+        al = ops_tagged(nsec)
+        for k in range(1, d + 1):
             for seq in itertools.product(al, repeat=k):
                 for ansi in ((1, 0) if k <= 2 else (1,)):
                     cases.append({"ansi": ansi, "ops": [[0]] * nsec + [list(o) for o in seq]})
@@ -53,11 +116,27 @@ def gen(rng, tier, info):
                 ops.append([0])
                 n += 1
             else:
-                ops.append(list(rng.choice(ops_for(n))))
+                ops.append(list(rng.choice(ops_all(n))))
         cases.append({"ansi": 1 if rng.random() < 0.85 else 0, "ops": ops})
     info["exhaustive"] = True
-    info["distribution"] = {"exhaustive": n_ex, "random": nrand, "depth": depth, "width": W}
+    info["distribution"] = {"exhaustive_plain": n_plain, "exhaustive_tagged_indented": n_ex - n_plain, "random": nrand, "depth": depth,
+                            "width": W}
     return cases
+
+
+def sty(tag=None, fg=None, bg=None, attrs=0):
+    return {"tag": tag, "fg": fg, "bg": bg, "attrs": attrs}
+
+
+def default_set():
+    """clikit's DefaultStyleSet (attribute bits: bold italic dark underlined blinking inverse hidden)"""
+    return [sty("info", "green"), sty("comment", "cyan"), sty("question", "blue"), sty("error", "red", None, 1), sty("b", None, None, 1),
+            sty("u", None, None, 8), sty("c1", "cyan"), sty("c2", "yellow")]
+
+
+def w_style(st):
+    o = lambda v: [] if v is None else [S(v)]
+    return [o(st["tag"]), o(st["fg"]), o(st["bg"])] + [st["attrs"] >> i & 1 for i in range(7)]
 
 
 def wire(c):
@@ -69,9 +148,11 @@ def wire(c):
             ops.append([1, o[1], S(TEXTS[o[2]]), o[3]])
         elif o[0] == 2:
             ops.append([2, o[1], S(TEXTS[o[2]])])
-        else:
+        elif o[0] == 3:
             ops.append([3, o[1], [] if o[2] is None else [o[2]]])
-    return [c["ansi"], W, ops]
+        else:
+            ops.append([4, o[1], o[2]])
+    return [c["ansi"], W, [w_style(s) for s in default_set()], ops]
 
 
 def describe(c):
@@ -82,8 +163,54 @@ def describe(c):
             return "s%d.%s(%r)" % (o[1], "write_line" if o[3] else "write", TEXTS[o[2]])
         if o[0] == 2:
             return "s%d.overwrite(%r)" % (o[1], TEXTS[o[2]])
-        return "s%d.clear(%s)" % (o[1], "" if o[2] is None else o[2])
+        if o[0] == 3:
+            return "s%d.clear(%s)" % (o[1], "" if o[2] is None else o[2])
+        return "s%d.indent(%d)" % (o[1], o[2])
     return ("ANSI" if c["ansi"] else "plain") + " width %d: " % W + "; ".join(d(o) for o in c["ops"])
+
+
+# ---- the class of the theorems, decided independently of the model (Model/Section.v good_opsb) ----
+_PASTEL = None
+_VIS = {}
+
+
+def _fresh_pastel():
+    from clikit.formatter import PlainFormatter
+    return PlainFormatter()._formatter
+
+
+def visible(line):
+    """the tag-stripped text of one line, by a fresh undecorated formatter; None when it raises"""
+    if line not in _VIS:
+        p = _fresh_pastel()
+        try:
+            _VIS[line] = (p.colorize(line), len(p._style_stack.styles) == 0)
+        except Exception:  # noqa
+            _VIS[line] = (None, False)
+    return _VIS[line]
+
+
+def good_line(l):
+    if "\n" in l or "\t" in l or "\x1b" in l or l.endswith("\\"):
+        return False
+    from pastel import Pastel
+    prev = 0
+    for m in Pastel.FULL_TAG_REGEX.finditer(l):
+        if l[prev:m.start()].endswith("\\"):
+            return False
+        prev = m.end()
+    v, balanced = visible(l)
+    return v is not None and balanced
+
+
+def good_ops(ops):
+    return all(good_line(l) for o in ops if o[0] in (1, 2) for l in TEXTS[o[2]].split("\n"))
+
+
+def indent_text(n, text):
+    if n <= 0:
+        return text
+    return "\n".join((" " * n + s) if s else s for s in text.split("\n"))
 
 
 def run_impl(c):
@@ -92,46 +219,68 @@ def run_impl(c):
     from clikit.formatter import AnsiFormatter, PlainFormatter
     io = BufferedIO(formatter=AnsiFormatter(forced=True) if c["ansi"] else PlainFormatter())
     secs = []
-    for o in c["ops"]:
-        if o[0] == 0:
-            secs.append(io.output.section())
-        elif o[0] == 1:
-            (secs[o[1]].write_line if o[3] else secs[o[1]].write)(TEXTS[o[2]])
-        elif o[0] == 2:
-            secs[o[1]].overwrite(TEXTS[o[2]])
-        else:
-            secs[o[1]].clear(o[2]) if o[2] is not None else secs[o[1]].clear()
+    try:
+        for o in c["ops"]:
+            if o[0] == 0:
+                secs.append(io.output.section())
+            elif o[0] == 1:
+                (secs[o[1]].write_line if o[3] else secs[o[1]].write)(TEXTS[o[2]])
+            elif o[0] == 2:
+                secs[o[1]].overwrite(TEXTS[o[2]])
+            elif o[0] == 3:
+                secs[o[1]].clear(o[2]) if o[2] is not None else secs[o[1]].clear()
+            else:
+                secs[o[1]].indent(o[2])
+    except Exception as e:  # noqa: a text the formatter refuses; the run ends there on both sides
+        return err(e)
     data = io.fetch_output()
     t = termemu.Term(W)
     t.feed(data)
     contents = [[S(l) for l in s.content.split("\n")[:-1]] if s.content else [] for s in secs]
-    return [termemu.tokens(data), [[cs, s.lines] for cs, s in zip(contents, secs)],
-            [[S(r) for r in t.screen()], t.r, t.c]]
+    return [0, termemu.tokens(data), [[cs, s.lines, s._indent] for cs, s in zip(contents, secs)],
+            [[S(r) for r in t.screen()], t.r, t.c], 1 if good_ops(c["ops"]) else 0]
 
 
 def oracle(c, o):
-    toks, secs, (screen, r, col) = o
+    if o[0] != 0:
+        # the formatter refused a text: only texts 14 / 18 (a closing tag that meets a foreign style stack) can do that
+        return None if any(op[0] in (1, 2) and op[2] in (14, 18) for op in c["ops"]) else "formatter-raised-on-good-markup"
+    _, toks, secs, (screen, r, col), good = o
     if not c["ansi"]:
         if any(t[0] not in (0, 1) for t in toks):
             return "control-code-on-plain-output"
-        # plain: appended lines
-        exp = ""
+        # plain: the visible text of every write, indented, appended
+        exp, inds = "", []
         for op in c["ops"]:
-            if op[0] == 1:
-                exp += TEXTS[op[2]] + ("\n" if op[3] else "")
-            elif op[0] == 2:
-                exp += TEXTS[op[2]] + "\n"
+            if op[0] == 0:
+                inds.append(0)
+            elif op[0] == 4:
+                inds[op[1]] = op[2]
+            elif op[0] in (1, 2):
+                v, _ = visible(indent_text(inds[op[1]], TEXTS[op[2]]))
+                if v is None:
+                    return None
+                exp += v + ("\n" if op[0] == 2 or op[3] else "")
         got = "".join("\n" if t[0] == 1 else chr(t[1]) for t in toks)
         return None if got == exp else "plain-output-not-appended-lines"
     stack = []
-    for cs, lines in secs:
+    for cs, lines, _ind in secs:
         rows = []
         for l in cs:
-            rows += termemu.wrap_rows(unS(l), W)
+            v, _ = visible(unS(l))
+            if v is None:
+                return None
+            rows += termemu.wrap_rows(v, W)
         if lines != len(rows):
             return "row-count-disagrees-with-content"
         stack += rows
     got = [unS(x) for x in screen]
+    if not good and any(op[0] in (1, 2) and op[2] == 18 for op in c["ops"]):
+        # outside the class of the theorems: a tag that spans a line break, cut by a partial clear, leaves its style on the
+        # formatter's stack for good (pastel keeps the stack between calls); an escaped tag written under an open style
+        # then keeps its backslash on a decorated output (pastel's own rendering, DESIGN.md C20).  The model follows the
+        # code there (the tie is still checked); the stack claim is not made.
+        return None
     if got != stack + [""] or r != len(stack) or col != 0:
         return "screen-differs-from-stacked-contents"
     return None
@@ -140,7 +289,9 @@ def oracle(c, o):
 def nontrivial_key(c, o):
     used = set(op[1] for op in c["ops"] if op[0] != 0)
     wrapped = any(op[0] in (1, 2) and len(max(TEXTS[op[2]].split("\n"), key=len)) > W for op in c["ops"])
-    if len(used) >= 2 or wrapped:
+    tagged = any(op[0] in (1, 2) and op[2] >= 6 for op in c["ops"])
+    indented = any(op[0] == 4 and op[2] > 0 for op in c["ops"])
+    if len(used) >= 2 or wrapped or tagged or indented:
         return [c["ansi"], c["ops"]]
     return None
 
